@@ -360,6 +360,10 @@ def witnesses():
         "neg-over-union": _w(["not", ["or", xa0, ya0]], [["var", "x"]], [X, Y]),
         "short-circuit-empty-domain": _w(["or", xa0, ya0], [["var", "x"]], [X, Y0]),
         "select-unbound-cross-product": _w(None, [["var", "x"], ["attr", ["var", "x"], "name"]], [X]),
+        "symbolic-call-argument-not-evaluated": _w(["cmp", "==", ["call", ["var", "x"], "m", [["attr", ["var", "y"], "a"]]], ["lit", 1]],
+                                                   [["var", "x"], ["var", "y"]], [X, Y]),
+        "symbolic-index-key-not-evaluated": _w(["cmp", ">=", ["idx", ["attr", ["var", "x"], "d"], ["call", ["var", "y"], "key", []]], ["lit", 1]],
+                                               [["var", "x"], ["var", "y"]], [X, Y]),
         "exists-dedup": _w(["exists", "x", ["cmp", "<=", ["attr", ["var", "x"], "a"], ["attr", ["var", "y"], "a"]]],
                            [["var", "y"]], [X, Y]),
         "forall-empty-range": _w(["forall", "y", ["cmp", "!=", ["attr", ["var", "x"], "a"], ["attr", ["var", "y"], "a"]]],
